@@ -121,8 +121,8 @@ class HMCOperator(MCMCOperator, ParameterListener):
                     potential_energy = self._hamiltonian.potential_energy()
                 ham = potential_energy + kinetic_energy
             except ValueError:
-                for parameter, saved_tensor in zip(self.parameters, self.saved_tensors):
-                    parameter.tensor = saved_tensor
+                self.restore()
+                for parameter in self.parameters:
                     assert parameter.tensor.requires_grad is False
             else:
                 break
